@@ -194,9 +194,9 @@ func (m *Machine) sprintf(format Value, args Slice) (Value, *Value) {
 		case 'q':
 			sv, ok := op.V.(string)
 			if st, isT := op.V.(*Term); isT && st.Sort == SString {
-				parts = append(parts, App("Q", SString, st))
+				parts = append(parts, Quote(st))
 			} else if ok {
-				parts = append(parts, App("Q", SString, StrT(sv)))
+				parts = append(parts, Quote(StrT(sv)))
 			} else {
 				unsupported("fmt: %%q of %T", op.V)
 			}
@@ -280,7 +280,7 @@ func (m *Machine) goSyntax(op Iface) *Term {
 			if i > 0 {
 				parts = append(parts, StrT(", "))
 			}
-			parts = append(parts, App("Q", SString, toTerm(e)))
+			parts = append(parts, Quote(toTerm(e)))
 		}
 		parts = append(parts, StrT("}"))
 		return Concat(parts...)
@@ -306,7 +306,7 @@ func (m *Machine) export(v Iface) (Value, bool) {
 	}
 	switch {
 	case b.Info()&types.IsString != 0:
-		return fromTerm(App("Q", SString, toTerm(v.V))), true
+		return fromTerm(Quote(toTerm(v.V))), true
 	case b.Info()&types.IsBoolean != 0:
 		return fromTerm(Ite(toTerm(v.V), StrT("true"), StrT("false"))), true
 	case b.Info()&types.IsInteger != 0:
